@@ -1,4 +1,616 @@
+/-
+  C02 — the configuration parser accepts exactly the documented configurations and resolves
+  every default exactly as documented.
+
+  Refinement of the procedural model `Model.parseConfig` (Go control flow, early returns) to the
+  declarative specification `Spec.C02.documented` / `Spec.C02.expConfig`:
+
+      parseConfig c = if documented c then some (expConfig c) else none
+
+  for every raw document `c` whose successfully parsed `prefix`/`route` CIDRs have at most 128
+  bits (`wfConfig`; implied by `netip.Prefix.IsValid`, which `netip.ParsePrefix` guarantees).
+  The hypothesis is necessary: `parse_eq_spec_needs_wf` below exhibits an ill-formed input on
+  which model and specification differ.
+
+  Structure: per-stanza lemmas `parseX raw = if docX raw then some (expX raw) else none`
+  (`parsePrefix_eq`, `parseRoute_eq`, `parseRDNSS_eq`, `parseDNSSL_eq`, `parsePref64_eq` with
+  `pref64_lifetime_eq`), `parsePlugins_eq`, `parseInterface_eq`, `parseInterfaces_eq`,
+  `parseAll_eq` (the `seen` set against `nodupNat (allNames …)`), `parse_eq_spec` and its
+  corollaries `accept_iff`, `defaults_exact`, `holds_model`; then the float64 facts
+  (`min_upper_exact`, `min_default_table`) and concrete examples.  Helper lemmas (lists, the
+  `rdnss` server loop, `docAdvertising = docScalars && docPlugins`) are in `Corerad.Lemmas.Config`.
+  The model reads the constants regenerated from the Go source (`Gen.*`), the specification uses
+  literals: `gen_constants` (proved by `decide`) ties them together and breaks if the source changes.
+-/
 import Corerad.Spec.C02
+import Corerad.Lemmas.Config
+
 namespace Corerad.Props.C02
-theorem placeholder : True := trivial
+
+open Corerad Corerad.Model Corerad.Spec.C02
+
+/-- the constants extracted from the Go source are the documented ones (breaks if the source changes) -/
+theorem gen_constants :
+    Gen.Config.defaultMaxInterval = 600 * second ∧
+    Gen.Config.maxIntervalLo = 4 * second ∧ Gen.Config.maxIntervalHi = 1800 * second ∧
+    Gen.Config.reachableLo = 0 ∧ Gen.Config.reachableHi = hour ∧
+    Gen.Config.retransLo = 0 ∧ Gen.Config.retransHi = hour ∧
+    Gen.Config.hopLimitLo = 0 ∧ Gen.Config.hopLimitHi = 255 ∧ Gen.Config.defaultHopLimit = 64 ∧
+    Gen.Config.mtuLo = 0 ∧ Gen.Config.mtuHi = 65536 ∧
+    Gen.Plugin.maxPref64Lifetime = 65528 * second := by decide
+
+theorem gen_maxPref64Lifetime : Gen.Plugin.maxPref64Lifetime = 65528 * second := by decide
+
+theorem gen_mtu : Gen.Config.mtuLo = 0 ∧ Gen.Config.mtuHi = 65536 := by decide
+
+/-! ### per-stanza refinement -/
+
+theorem parsePrefix_eq (p : RawPrefix) (hwf : wfPfx p.pstr = true) :
+    parsePrefix p = if docPrefix p then some (expPrefix p) else none := by
+  unfold parsePrefix docPrefix expPrefix
+  simp only [bind, pure, Option.bind, parseDuration_eq, show autoPrefix = wildPrefix from rfl]
+  rcases pfx_cases wildPrefix rfl (by decide) p.pstr hwf with ⟨h0, h1⟩ | ⟨p0, q, h0, hq, h1, h6, hb⟩
+  · rw [h0, h1]; rfl
+  · rw [h0, h1]
+    simp only [hq, Option.getD_some, is6_isSingleIP q h6 hb]
+    cases resolve p.valid (24 * hour) with
+    | none => simp
+    | some v =>
+      cases resolve p.preferred (4 * hour) with
+      | none => simp
+      | some pr =>
+        simp only [Option.getD_some, inPos, lifetimeInRange, show infinity = maxLifetime from rfl]
+        simp only [show maxLifetime = 4294967295000000000 from by decide]
+        cases (q.bits == 128) <;> cases q.addr.isUnspecified <;> cases hb64 : (q.bits == 64) <;>
+          cases p.deprecated <;> simp [bne, hb64] <;> (repeat' split) <;> first | rfl | omega
+
+theorem parseRoute_eq (r : RawRoute) (hwf : wfPfx r.pstr = true) :
+    parseRoute r = if docRoute r then some (expRoute r) else none := by
+  unfold parseRoute docRoute expRoute
+  simp only [bind, pure, Option.bind, parseDuration_eq, parsePreference_eq, show autoRoute = wildRoute from rfl]
+  rcases pfx_cases wildRoute rfl (by decide) r.pstr hwf with ⟨h0, h1⟩ | ⟨p0, q, h0, hq, h1, h6, hb⟩
+  · simp [h0, h1]
+  · rw [h0, h1]
+    simp only [hq, Option.getD_some]
+    cases prefCode r.preference with
+    | none => simp
+    | some pc =>
+    cases resolve r.lifetime (24 * hour) with
+    | none => simp
+    | some l =>
+      simp only [Option.getD_some, inPos, lifetimeInRange, show infinity = maxLifetime from rfl, maxLifetime_val]
+      cases q.addr.isUnspecified <;> cases hb0 : (q.bits == 0) <;>
+          cases r.deprecated <;> simp [bne, hb0] <;> (repeat' split) <;> first | rfl | omega
+
+theorem parseRDNSS_eq (d : RawRDNSS) (maxI : Dur) :
+    parseRDNSS d maxI = if docRDNSS maxI d then some (expRDNSS maxI d) else none := by
+  unfold parseRDNSS docRDNSS expRDNSS
+  simp only [bind, pure, Option.bind, parseDuration_eq]
+  cases resolve d.lifetime (3 * maxI) with
+  | none => simp
+  | some l =>
+    simp only [Option.getD_some, show lifetimeInRange l = inNonneg l from rfl]
+    cases inNonneg l with
+    | false => simp
+    | true =>
+      simp only [Bool.not_true, Bool.false_eq_true, if_false, Bool.true_and]
+      cases hs : d.servers with
+      | nil => simp [nodupIP, sortBy]
+      | cons a rest =>
+        simp only [List.isEmpty_cons, Bool.false_eq_true, if_false, Bool.false_or]
+        rw [parseServers_eq]
+        simp only [Bool.false_eq_true, if_false, Nat.add_zero, List.contains_nil, Bool.not_false,
+          Bool.false_or, List.nil_append]
+        show _ = if (List.all (a :: rest) serverOk && decide ((unspecs (a :: rest)).length ≤ 1) && nodupIP (specs (a :: rest))) = true then
+          some (Plugin.rdnss ((List.map serverAddr (a :: rest)).any (·.isUnspecified)) l (sortBy addrKey (specs (a :: rest)))) else none
+        have hall : ((specs (a :: rest)).all fun _ => true) = true := by simp
+        rw [hall, Bool.and_true]
+        generalize ((a :: rest).all serverOk && decide ((unspecs (a :: rest)).length ≤ 1) && nodupIP (specs (a :: rest))) = b
+        cases b <;> rfl
+
+theorem parseDNSSL_eq (d : RawDNSSL) (maxI : Dur) :
+    parseDNSSL d maxI = if docDNSSL maxI d then some (expDNSSL maxI d) else none := by
+  unfold parseDNSSL docDNSSL expDNSSL
+  simp only [bind, pure, Option.bind, parseDuration_eq, hasDup_eq]
+  cases resolve d.lifetime (3 * maxI) with
+  | none => simp
+  | some l =>
+    simp only [Option.getD_some, show lifetimeInRange l = inNonneg l from rfl]
+    cases inNonneg l <;> cases d.names.isEmpty <;> cases nodupNat d.names <;> simp
+
+theorem pref64_lifetime_eq (maxI : Dur) (h : 0 ≤ maxI) :
+    Model.pref64Lifetime maxI = Spec.C02.pref64Lifetime maxI := by
+  unfold Model.pref64Lifetime Spec.C02.pref64Lifetime ceil8 wholeSeconds goDiv goMod
+  rw [gen_maxPref64Lifetime]
+  dsimp only
+  have hs : (65528 * second).tdiv second = 65528 := by decide
+  rw [hs, Int.tdiv_eq_ediv_of_nonneg h]
+  have hs0 : 0 ≤ maxI / second := Int.ediv_nonneg h (by decide)
+  generalize maxI / second = s at hs0
+  have hm : (s * 3).tmod 8 = (s * 3) % 8 := Int.tmod_eq_emod_of_nonneg (by omega)
+  rw [hm]
+  unfold second
+  split
+  · split <;> omega
+  · omega
+
+theorem parsePref64_eq (p : RawPref64) (maxI : Dur) (h : 0 ≤ maxI) :
+    parsePref64 p maxI =
+      if docPref64 p then some (Plugin.pref64 ((pref64Of p).getD wellKnown64) (Spec.C02.pref64Lifetime maxI))
+      else none := by
+  unfold parsePref64 docPref64
+  rw [pref64_lifetime_eq maxI h]
+  have hb : ∀ b, pref64Bits b = nat64Len b := fun _ => rfl
+  have hd : defaultPref64 = wellKnown64 := rfl
+  cases p with
+  | unset => rfl
+  | empty => rfl
+  | str s =>
+    cases s with
+    | empty => rfl
+    | bad => simp [pref64Of, parseIPPrefix]
+    | ok q =>
+      simp only [pref64Of, parseIPPrefix, canonical6, hb]
+      by_cases hm : q.masked = q <;> by_cases h6 : q.addr.is6 = true <;> by_cases h4 : q.addr.is4In6 = true <;>
+        simp [hm, h6, h4]
+
+/-- `docAdvertising` is literally the conjunction of its scalar part and its plugin part -/
+theorem docAdvertising_eq (i : RawInterface) :
+    docAdvertising i =
+      match plainDur i.maxInterval (600 * second) with
+      | none => false
+      | some maxI => docScalars i maxI && docPlugins i maxI := by
+  unfold docAdvertising docScalars docPlugins overlapPrefixes overlapRoutes
+  cases plainDur i.maxInterval (600 * second) with
+  | none => rfl
+  | some maxI => simp only [Bool.and_assoc]; rfl
+
+theorem parsePlugins_eq (i : RawInterface) (maxI : Dur) (hwf : wfIface i = true) (hmax : 0 ≤ maxI) :
+    parsePlugins i maxI = if docPlugins i maxI then some (expPlugins i maxI) else none := by
+  unfold wfIface at hwf
+  simp only [Bool.and_eq_true, List.all_eq_true] at hwf
+  unfold parsePlugins docPlugins expPlugins
+  simp only [bind, pure, Option.bind]
+  rw [mapM'_eq (d := docPrefix) (e := expPrefix) i.prefixes (fun x hx => parsePrefix_eq x (hwf.1 x hx)),
+    mapM'_eq (d := docRoute) (e := expRoute) i.routes (fun x hx => parseRoute_eq x (hwf.2 x hx)),
+    mapM'_eq (d := docRDNSS maxI) (e := expRDNSS maxI) i.rdnss (fun x _ => parseRDNSS_eq x maxI),
+    mapM'_eq (d := docDNSSL maxI) (e := expDNSSL maxI) i.dnssl (fun x _ => parseDNSSL_eq x maxI),
+    mapM'_eq (d := docPref64) (e := fun p => Plugin.pref64 ((pref64Of p).getD wellKnown64) (Spec.C02.pref64Lifetime maxI))
+      i.pref64 (fun x _ => parsePref64_eq x maxI hmax)]
+  have hover1 : i.prefixes.all docPrefix = true →
+      anyPair (fun a b => (pluginPrefixOf a).overlaps (pluginPrefixOf b)) (List.map expPrefix i.prefixes)
+      = !pairwiseNot overlapPrefixes i.prefixes := by
+    intro h1
+    rw [List.all_eq_true] at h1
+    rw [anyPair_eq, pairwiseNot_map expPrefix _ overlapPrefixes]
+    intro a ha b hb
+    obtain ⟨qa, hqa⟩ := docPrefix_some a (h1 a ha)
+    obtain ⟨qb, hqb⟩ := docPrefix_some b (h1 b hb)
+    simp only [overlapPrefixes, expPrefix, pluginPrefixOf, hqa, hqb, Option.getD_some]
+  have hover2 : i.routes.all docRoute = true →
+      anyPair (fun a b => pluginPrefixOf a != autoRoute && pluginPrefixOf b != autoRoute &&
+                      (pluginPrefixOf a).overlaps (pluginPrefixOf b)) (List.map expRoute i.routes)
+      = !pairwiseNot overlapRoutes i.routes := by
+    intro h3
+    rw [List.all_eq_true] at h3
+    rw [anyPair_eq, pairwiseNot_map expRoute _ overlapRoutes]
+    intro a ha b hb
+    obtain ⟨qa, hqa⟩ := docRoute_some a (h3 a ha)
+    obtain ⟨qb, hqb⟩ := docRoute_some b (h3 b hb)
+    simp only [overlapRoutes, expRoute, pluginPrefixOf, hqa, hqb, Option.getD_some,
+      show autoRoute = wildRoute from rfl]
+  cases h1 : i.prefixes.all docPrefix with
+  | false => simp
+  | true =>
+    simp only [if_true, hover1 h1]
+    cases h2 : pairwiseNot overlapPrefixes i.prefixes with
+    | false => simp
+    | true =>
+      cases h3 : i.routes.all docRoute with
+      | false => simp
+      | true =>
+        simp only [if_true, hover2 h3]
+        cases h4 : pairwiseNot overlapRoutes i.routes with
+        | false => simp
+        | true =>
+          cases h5 : i.rdnss.all (docRDNSS maxI) with
+          | false => simp
+          | true =>
+            cases h6 : i.dnssl.all (docDNSSL maxI) with
+            | false => simp
+            | true =>
+              simp only [if_true, gen_mtu.1, gen_mtu.2, Bool.not_true, Bool.false_eq_true, if_false, Bool.true_and]
+              by_cases hm1 : i.mtu < 0
+              · have : ¬ (0 ≤ i.mtu) := by omega
+                simp [hm1, this]
+              · by_cases hm2 : i.mtu > 65536
+                · have : ¬ (i.mtu ≤ 65536) := by omega
+                  simp [hm2, this]
+                · have hm3 : 0 ≤ i.mtu := by omega
+                  have hm4 : i.mtu ≤ 65536 := by omega
+                  simp only [hm1, hm2, hm3, hm4, decide_true, decide_false, Bool.or_self, Bool.false_eq_true,
+                    if_false, Bool.true_and]
+                  cases h7 : i.pref64.all docPref64 with
+                  | false => cases i.captivePortal <;> simp [portalOk] <;> split <;> simp
+                  | true =>
+                    cases i.captivePortal with
+                    | empty => simp [portalOk]
+                    | bad => simp [portalOk]
+                    | ok u l =>
+                      simp only [portalOk, maxPortalLen]
+                      by_cases hl : l > 246
+                      · have : ¬ l ≤ 246 := by omega
+                        simp [hl, this]
+                      · have : l ≤ 246 := by omega
+                        simp [hl, this]
+
+/-! ### interfaces and the whole document -/
+
+theorem parsePlainDur_eq (s : DurStr) (d : Dur) : parsePlainDur s d = plainDur s d := by
+  cases s <;> rfl
+
+theorem parseMinInterval_eq (s : DurStr) (maxI : Dur) : parseMinInterval s maxI = minOf s maxI := by
+  cases s with
+  | lit d =>
+    simp only [parseMinInterval, minOf]
+    show (if d < 3 * second ∨ d > minUpper maxI then none else some d) = _
+    by_cases h : 3 * second ≤ d ∧ d ≤ minUpper maxI
+    · have : ¬ (d < 3 * second ∨ d > minUpper maxI) := by omega
+      rw [if_pos h, if_neg this]
+    · have : d < 3 * second ∨ d > minUpper maxI := by omega
+      rw [if_neg h, if_pos this]
+  | _ => first | rfl | (simp only [parseMinInterval, minOf, minDefault]; (repeat' split) <;> first | rfl | omega)
+
+theorem parseDefaultLifetime_eq (s : DurStr) (maxI : Dur) :
+    parseDefaultLifetime s maxI = lifetimeOf s maxI := by
+  unfold parseDefaultLifetime lifetimeOf
+  simp only [bind, pure, Option.bind, parseDuration_eq]
+  cases resolve s (3 * maxI) with
+  | none => rfl
+  | some l =>
+    simp only []
+    (repeat' split) <;> first | rfl | omega
+
+theorem parseInterface_eq (n : Nat) (i : RawInterface) (hwf : wfIface i = true) :
+    parseInterface n i = if docInterface i then some (expInterface n i) else none := by
+  unfold parseInterface docInterface expInterface
+  obtain ⟨g1, g2, g3, g4, g5, g6, g7, g8, g9, g10, -, -, -⟩ := gen_constants
+  simp only [bind, pure, Option.bind, parsePlainDur_eq, parseMinInterval_eq, parseDefaultLifetime_eq,
+    parsePreference_eq, g1, g2, g3, g4, g5, g6, g7, g8, g9, g10, docAdvertising_eq]
+  cases hmon : i.monitor with
+  | true => cases i.advertise <;> simp
+  | false =>
+    simp only [Bool.false_and, Bool.false_eq_true, if_false, Bool.not_false, Bool.true_and, Bool.false_or]
+    cases hmax : plainDur i.maxInterval (600 * second) with
+    | none => simp
+    | some maxI =>
+      simp only [Option.getD_some, docScalars]
+      by_cases hr : maxI < 4 * second ∨ maxI > 1800 * second
+      · have h1 : (decide (4 * second ≤ maxI) && decide (maxI ≤ 1800 * second)) = false := by
+          rw [Bool.and_eq_false_iff, decide_eq_false_iff_not, decide_eq_false_iff_not]; omega
+        simp only [hr, if_true, h1, Bool.false_and, Bool.false_eq_true, if_false]
+      · have h1 : (decide (4 * second ≤ maxI) && decide (maxI ≤ 1800 * second)) = true := by
+          rw [Bool.and_eq_true, decide_eq_true_eq, decide_eq_true_eq]; omega
+        have h0 : 0 ≤ maxI := by unfold second at hr; omega
+        simp only [hr, if_false, h1, Bool.true_and, parsePlugins_eq i maxI hwf h0]
+        cases hmin : minOf i.minInterval maxI with
+        | none => simp
+        | some minI =>
+          cases hre : plainDur i.reachable 0 with
+          | none => simp [within]
+          | some re =>
+            cases hrt : plainDur i.retransmit 0 with
+            | none => simp [within]
+            | some rt =>
+              cases hlt : lifetimeOf i.defaultLifetime maxI with
+              | none => simp
+              | some lt =>
+                cases hpc : prefCode i.preference with
+                | none => simp
+                | some pc =>
+                  simp only [Option.isSome_some, Bool.true_and, Bool.and_true, within, Option.getD_some]
+                  generalize expPlugins i maxI = pl
+                  generalize hour = H
+                  cases docPlugins i maxI <;> cases i.hopLimit <;> simp <;>
+                    (repeat' split) <;> first | rfl | omega
+
+theorem all_const {α : Type} (l : List α) (b : Bool) (h : l ≠ []) : l.all (fun _ => b) = b := by
+  cases l with
+  | nil => exact absurd rfl h
+  | cons x xs => cases b <;> simp
+
+/-- the resolved interfaces of one stanza: one per name -/
+def expStanza (i : RawInterface) : List Interface :=
+  ((stanzaNames i).getD []).map (fun n => expInterface n i)
+
+theorem parseInterfaces_eq (i : RawInterface) (hwf : wfIface i = true) :
+    parseInterfaces i =
+      if (stanzaNames i).isSome && docInterface i then some (expStanza i) else none := by
+  unfold parseInterfaces stanzaNames expStanza stanzaNames
+  have hm : ∀ ns : List Nat, ns ≠ [] → mapM' (fun n => parseInterface n i) ns =
+      if docInterface i then some (ns.map (fun n => expInterface n i)) else none := by
+    intro ns hns
+    rw [mapM'_eq (d := fun _ => docInterface i) (e := fun n => expInterface n i) ns
+      (fun n _ => parseInterface_eq n i hwf), all_const ns _ hns]
+  cases hn : (i.name != 0) <;> cases hns : i.names with
+  | nil => simp [hm]
+  | cons x xs => simp [hm]
+
+theorem expInterface_name (n : Nat) (i : RawInterface) : (expInterface n i).name = n := by
+  unfold expInterface; split <;> rfl
+
+theorem expStanza_names (i : RawInterface) : (expStanza i).map (·.name) = (stanzaNames i).getD [] := by
+  unfold expStanza
+  rw [List.map_map]
+  have : ((fun x : Interface => x.name) ∘ fun n => expInterface n i) = id := by
+    funext n; exact expInterface_name n i
+  rw [this, List.map_id]
+
+theorem nodupNat_iff (l : List Nat) : nodupNat l = true ↔ l.Nodup := by
+  induction l with
+  | nil => simp [nodupNat]
+  | cons x xs ih => simp [nodupNat, ih]
+
+theorem seen_step (seen a b : List Nat) :
+    (nodupNat (a ++ b) && (a ++ b).all (fun x => !seen.contains x)) =
+    (!(a.any seen.contains || hasDup a) && (nodupNat b && b.all (fun x => !(seen ++ a).contains x))) := by
+  rw [Bool.eq_iff_iff, hasDup_eq]
+  simp only [Bool.and_eq_true, Bool.not_eq_true', Bool.or_eq_false_iff, Bool.not_eq_false', nodupNat_iff,
+    List.nodup_append, List.all_eq_true, List.any_eq_false, List.contains_eq_mem, decide_eq_true_eq,
+    decide_eq_false_iff_not, List.mem_append]
+  constructor
+  · rintro ⟨⟨ha, hb, hab⟩, hs⟩
+    refine ⟨⟨fun x hx => hs x (Or.inl hx), ha⟩, hb, ?_⟩
+    rintro x hx (h | h)
+    · exact hs x (Or.inr hx) h
+    · exact hab x h x hx rfl
+  · rintro ⟨⟨hs, ha⟩, hb, hsb⟩
+    refine ⟨⟨ha, hb, ?_⟩, ?_⟩
+    · rintro x hx y hy rfl; exact hsb x hy (Or.inr hx)
+    · rintro x (hx | hx)
+      · exact hs x hx
+      · exact fun h => hsb x hx (Or.inl h)
+
+def namesOk (seen : List Nat) (l : List RawInterface) : Bool :=
+  match allNames l with
+  | none => false
+  | some ns => nodupNat ns && ns.all (fun x => !seen.contains x)
+
+theorem namesOk_cons (seen a : List Nat) (r : RawInterface) (rs : List RawInterface)
+    (hs : stanzaNames r = some a) :
+    namesOk seen (r :: rs) = (!(a.any seen.contains || hasDup a) && namesOk (seen ++ a) rs) := by
+  unfold namesOk
+  simp only [allNames, hs]
+  cases allNames rs with
+  | none => simp
+  | some b => exact seen_step seen a b
+
+theorem parseAll_eq (l : List RawInterface) (seen : List Nat) (hwf : l.all wfIface = true) :
+    parseAll l seen =
+      if l.all docInterface && namesOk seen l then some (l.flatMap expStanza) else none := by
+  induction l generalizing seen with
+  | nil => simp [parseAll, namesOk, allNames, nodupNat]
+  | cons r rs ih =>
+    rw [List.all_cons, Bool.and_eq_true] at hwf
+    simp only [parseAll, bind, pure, Option.bind, parseInterfaces_eq r hwf.1, ih _ hwf.2]
+    cases hs : stanzaNames r with
+    | none => simp [namesOk, allNames, hs]
+    | some a =>
+      cases hd : docInterface r with
+      | false => simp [hd]
+      | true =>
+        simp only [Option.isSome_some, Bool.and_self, if_true, expStanza_names, hs, Option.getD_some,
+          List.all_cons, hd, Bool.true_and, namesOk_cons seen a r rs hs, List.flatMap_cons]
+        cases (a.any seen.contains || hasDup a) with
+        | true => simp
+        | false =>
+          simp only [Bool.false_eq_true, if_false, Bool.not_false, Bool.true_and]
+          cases (rs.all docInterface && namesOk (seen ++ a) rs) <;> rfl
+
+/-- input well-formedness of a document -/
+def wfConfig (c : RawConfig) : Bool := c.interfaces.all wfIface
+
+theorem namesOk_nil (l : List RawInterface) :
+    namesOk [] l = (match allNames l with | none => false | some ns => nodupNat ns) := by
+  unfold namesOk
+  cases allNames l with
+  | none => rfl
+  | some ns => simp
+
+theorem parse_eq_spec (c : RawConfig) (hwf : wfConfig c = true) :
+    parseConfig c = if documented c then some (expConfig c) else none := by
+  unfold parseConfig documented expConfig
+  simp only [bind, pure, Option.bind, parseAll_eq c.interfaces [] hwf, namesOk_nil]
+  cases he : c.interfaces.isEmpty with
+  | true => simp
+  | false =>
+    simp only [Bool.false_eq_true, if_false, Bool.not_false, Bool.true_and]
+    rw [show (fun i => List.map (fun n => expInterface n i) ((stanzaNames i).getD [])) = expStanza from rfl]
+    generalize List.flatMap expStanza c.interfaces = ifs
+    cases allNames c.interfaces with
+    | none =>
+      by_cases h0 : c.debugAddr = 0
+      · cases (c.interfaces.all docInterface) <;> simp [h0]
+      · by_cases h1 : c.debugAddr = 1
+        · cases (c.interfaces.all docInterface) <;> simp [h1]
+        · simp [h0, h1]
+    | some ns =>
+      simp only []
+      by_cases hall : c.interfaces.all docInterface = true <;> by_cases hnd : nodupNat ns = true <;>
+        by_cases h0 : c.debugAddr = 0
+      all_goals first
+        | (simp [h0, hall, hnd]; done)
+        | (by_cases h1 : c.debugAddr = 1 <;> simp [h0, h1, hall, hnd])
+
+/-- acceptance is exactly the documented predicate -/
+theorem accept_iff (c : RawConfig) (hwf : wfConfig c = true) : (parseConfig c).isSome = documented c := by
+  rw [parse_eq_spec c hwf]; cases documented c <;> rfl
+
+/-- every accepted document resolves to exactly the documented defaults/values -/
+theorem defaults_exact (c : RawConfig) (hwf : wfConfig c = true) (cfg : Config)
+    (h : parseConfig c = some cfg) : cfg = expConfig c := by
+  rw [parse_eq_spec c hwf] at h
+  cases hd : documented c with
+  | false => rw [hd] at h; simp at h
+  | true => rw [hd] at h; simp only [if_true, Option.some.injEq] at h; exact h.symm
+
+/-! ### float64 facts of `parseMinInterval` -/
+
+theorem floatMulTrunc_small (c e x : Nat) (h : x * c < 2 ^ 53) : floatMulTrunc c e x = x * c / 2 ^ e := by
+  unfold floatMulTrunc
+  have hb : (if x * c = 0 then 0 else (x * c).log2 + 1) ≤ 53 := by
+    split
+    · omega
+    · rename_i hn
+      have := (Nat.log2_lt hn).mpr h
+      omega
+  simp only [hb, if_true]
+
+/-- 0.75·x is exact in float64 for 0 ≤ x < 2^51 ns: the `min_interval` upper bound is ⌊3x/4⌋ -/
+theorem min_upper_exact_51 (x : Int) (h0 : 0 ≤ x) (h1 : x < 2 ^ 51) : mul075 x = (3 * x) / 4 := by
+  unfold mul075
+  have hx : x.toNat * 3 < 2 ^ 53 := by
+    have : (2:Int) ^ 51 = 2251799813685248 := by decide
+    have : (2:Nat) ^ 53 = 9007199254740992 := by decide
+    omega
+  rw [floatMulTrunc_small 3 2 x.toNat hx]
+  have : (2:Nat) ^ 2 = 4 := by decide
+  rw [this]
+  omega
+
+/-- the statement asked for (2^50 ns ≈ 13 days; MaxRtrAdvInterval ≤ 1800 s is far below) -/
+theorem min_upper_exact (x : Int) (h0 : 0 ≤ x) (h1 : x < 2 ^ 50) : mul075 x = (3 * x) / 4 :=
+  min_upper_exact_51 x h0 (by
+    have : (2:Int) ^ 50 = 1125899906842624 := by decide
+    have : (2:Int) ^ 51 = 2251799813685248 := by decide
+    omega)
+
+/-- hence the documented upper bound of `min_interval` is ⌊3·max/4⌋ truncated to a whole second -/
+theorem minUpper_eq (maxI : Dur) (h0 : 0 ≤ maxI) (h1 : maxI < 2 ^ 51) :
+    minUpper maxI = truncateDur ((3 * maxI) / 4) second := by
+  unfold minUpper; rw [min_upper_exact_51 maxI h0 h1]
+
+/-- one row of the table: for `k` whole seconds (k ≥ 9) the float64 computation
+    `⌊0.33·k s⌋` truncated to a second is `⌊33k/100⌋ s` -/
+def tableOk (k : Nat) : Bool :=
+  !(decide (9 ≤ k)) || decide (minDefault ((k : Int) * second) = (((33 * k) / 100 : Nat) : Int) * second)
+
+/-- kernel evaluation of all 1801 rows (`decide +kernel`: the kernel runs the model's float
+    arithmetic with GMP naturals; no native code is trusted) -/
+theorem table_all : (List.range 1801).all tableOk = true := by decide +kernel
+
+theorem min_default_table (k : Nat) (h9 : 9 ≤ k) (h1800 : k ≤ 1800) :
+    minDefault ((k : Int) * second) = (((33 * k) / 100 : Nat) : Int) * second := by
+  have h := List.all_eq_true.mp table_all k (List.mem_range.mpr (by omega))
+  unfold tableOk at h
+  simpa [h9] using h
+
+/-- a valid `netip.Prefix` is well-formed in the sense needed here -/
+theorem wfPfx_of_isValid (p : Prefix) (h : p.isValid = true) : wfPfx (.ok p) = true := by
+  unfold Prefix.isValid IP.bitLen at h
+  simp only [wfPfx, decide_eq_true_eq]
+  simp only [Bool.and_eq_true, decide_eq_true_eq] at h
+  have := h.2
+  split at this
+  · omega
+  · split at this <;> omega
+
+/-- The model meets the oracle that the check evaluates on the implementation's output. -/
+theorem holds_model (c : RawConfig) (hwf : wfConfig c = true) :
+    Spec.C02.holds c (parseConfig c) = (true, "") := by
+  rw [parse_eq_spec c hwf]
+  unfold Spec.C02.holds
+  cases hd : documented c with
+  | false => simp
+  | true => simp [cfgEq]
+
+/-! ### the well-formedness hypothesis is necessary -/
+
+/-- `bits = 200 > 128`: the model substitutes the `::/0` wildcard (`!prefix.IsValid()`), the
+    specification rejects (`::` with a non-zero length). -/
+def illFormedRoute : RawRoute := { pstr := .ok { addr := { val := 0 }, bits := 200 } }
+
+theorem parseRoute_eq_needs_wf :
+    parseRoute illFormedRoute ≠ if docRoute illFormedRoute then some (expRoute illFormedRoute) else none := by
+  decide
+
+def illFormedPrefix : RawPrefix :=
+  { pstr := .ok { addr := { val := 0x20010db8000000000000000000000000 }, bits := 200 } }
+
+/-- both accept, but the model resolves to the `::/64` wildcard and the specification to the
+    (impossible) 200-bit prefix -/
+theorem parsePrefix_eq_needs_wf :
+    docPrefix illFormedPrefix = true ∧ parsePrefix illFormedPrefix ≠ some (expPrefix illFormedPrefix) := by
+  decide
+
+theorem parse_eq_spec_needs_wf :
+    ∃ c : RawConfig, parseConfig c ≠ if documented c then some (expConfig c) else none := by
+  refine ⟨{ interfaces := [{ name := 1, maxInterval := .lit (4 * second), routes := [illFormedRoute] }] }, ?_⟩
+  have h1 : documented { interfaces := [{ name := 1, maxInterval := .lit (4 * second), routes := [illFormedRoute] }] } = false := by
+    decide +kernel
+  have h2 : (parseConfig { interfaces := [{ name := 1, maxInterval := .lit (4 * second), routes := [illFormedRoute] }] }).isSome = true := by
+    decide +kernel
+  rw [h1]
+  intro h
+  rw [h] at h2
+  exact absurd h2 (by decide)
+
+/-! ### non-vacuity -/
+
+deriving instance DecidableEq for Corerad.Model.Config
+
+/-- Non-vacuity: an advertising stanza using most stanza kinds and several defaults, plus a
+    two-name monitoring stanza whose advertising keys are garbage (`max_interval` unparsable). -/
+def exGood : RawConfig :=
+  { interfaces := [
+      { name := 1, advertise := true, maxInterval := .lit (60 * second), hopLimit := some 32,
+        defaultLifetime := .auto,
+        prefixes := [ {}, { pstr := .ok { addr := { val := 0x20010db8000000010000000000000000 }, bits := 64 },
+                            autonomous := some false, valid := .infinite, preferred := .lit (2 * hour) } ],
+        routes := [ { pstr := .ok { addr := { val := 0x20010db8ffff00000000000000000000 }, bits := 48 }, preference := 3 } ],
+        rdnss := [ { servers := [ .ok { val := 0x20010db8000000010000000000000053 }, .ok { val := 0 } ] } ],
+        dnssl := [ { lifetime := .lit (100 * second), names := [7, 8] } ],
+        pref64 := [ .unset ],
+        mtu := 1500, captivePortal := .ok 9 30 },
+      { names := [2, 3], monitor := true, verbose := true, maxInterval := .bad } ],
+    debugAddr := 1, prometheus := true }
+
+/-- what `exGood` resolves to: min_interval 19 s (⌊0.33·60⌋), default lifetime 180 s, RDNSS lifetime
+    180 s with the `::` wildcard, PREF64 64:ff9b::/96 for 184 s (180 rounded up to a multiple of 8) -/
+def exGoodResolved : Config :=
+  { interfaces := [
+      { name := 1, advertise := true, minInterval := 19 * second, maxInterval := 60 * second,
+        hopLimit := 32, defaultLifetime := 180 * second,
+        plugins := [
+          .pfx true { addr := { val := 0 }, bits := 64 } true true (24 * hour) (4 * hour) false,
+          .pfx false { addr := { val := 0x20010db8000000010000000000000000 }, bits := 64 } true false
+            (4294967295 * second) (2 * hour) false,
+          .route false { addr := { val := 0x20010db8ffff00000000000000000000 }, bits := 48 } prefHigh (24 * hour) false,
+          .rdnss true (180 * second) [{ val := 0x20010db8000000010000000000000053 }],
+          .dnssl (100 * second) [7, 8],
+          .mtu 1500, .lla, .captivePortal 9 30,
+          .pref64 { addr := { val := 0x0064ff9b000000000000000000000000 }, bits := 96 } (184 * second) ] },
+      { name := 2, monitor := true, verbose := true },
+      { name := 3, monitor := true, verbose := true } ],
+    debugAddr := 1, prometheus := true }
+
+example : wfConfig exGood = true ∧ documented exGood = true ∧ parseConfig exGood = some exGoodResolved ∧
+    expConfig exGood = exGoodResolved := by decide +kernel
+
+/-- the same document with the wildcard `::/64` prefix stanza repeated is rejected (overlap) -/
+def exBad : RawConfig :=
+  { exGood with interfaces := exGood.interfaces.map (fun i => { i with prefixes := {} :: i.prefixes }) }
+
+example : wfConfig exBad = true ∧ documented exBad = false ∧ parseConfig exBad = none := by decide +kernel
+
+/-- a name used by two stanzas is rejected -/
+example : let c : RawConfig := { interfaces := [{ name := 1 }, { names := [2, 1] }] }
+    documented c = false ∧ parseConfig c = none := by decide +kernel
+
+/-- `min_interval = 46 s > 0.75·60 s` is rejected, 45 s is accepted -/
+example :
+    parseConfig { interfaces := [{ name := 1, maxInterval := .lit (60 * second), minInterval := .lit (46 * second) }] } = none ∧
+    (parseConfig { interfaces := [{ name := 1, maxInterval := .lit (60 * second), minInterval := .lit (45 * second) }] }).isSome = true := by
+  decide +kernel
+
 end Corerad.Props.C02
